@@ -1197,6 +1197,278 @@ fn sc_dns(rig: &mut Rig, v6: bool, variant: usize) {
     }
 }
 
+
+// ------------------------------------------------------------------------------------------
+// renumbering: the application changes the interface's addresses in the middle of something
+// ------------------------------------------------------------------------------------------
+
+pub const NEW4: [u8; 4] = [192, 168, 69, 9];
+pub const NEW6: [u8; 16] = [0xfe, 0x80, 0, 0, 0, 0, 0, 0, 0, 0, 0, 0, 0, 0, 0, 9];
+
+/// action 0: the address in use is replaced by another one of the same subnet; 1: it is
+/// removed; 2 (IPv6): every IPv6 address is removed
+fn renumber(rig: &mut Rig, v6: bool, action: usize) {
+    let used6 = rig.cfg.ll();
+    rig.iface.update_ip_addrs(|a| match (v6, action) {
+        (false, 0) => {
+            for c in a.iter_mut() {
+                if matches!(c, IpCidr::Ipv4(_)) {
+                    *c = IpCidr::new(ip4(&NEW4), 24);
+                }
+            }
+        }
+        (false, _) => a.retain(|c| !matches!(c, IpCidr::Ipv4(_))),
+        (true, 0) => {
+            for c in a.iter_mut() {
+                if c.address() == ip6(&used6) {
+                    *c = IpCidr::new(ip6(&NEW6), 64);
+                }
+            }
+        }
+        (true, 1) => a.retain(|c| c.address() != ip6(&used6)),
+        (true, _) => a.retain(|c| !matches!(c, IpCidr::Ipv6(_))),
+    });
+    let now: Vec<String> = rig.iface.ip_addrs().iter().map(|c| c.to_string()).collect();
+    rig.note(|| format!("APPLICATION renumbers the interface (action {}): addresses now {:?}", action, now));
+    // changing the addresses flushes the neighbor cache: the peer makes itself known again
+    match (rig.medium(), v6, action) {
+        (Medium::Ip, _, _) => {}
+        (Medium::Ethernet, false, 0) => {
+            rig.inject(eth(&[0xff; 6], &PEER_MAC, 0x0806, &arp(1, &PEER_MAC, &PEER4, &[0; 6], &NEW4)));
+        }
+        (_, true, 0) => {
+            let f = rig.ns_frame(&PEER6, &PEER_MAC, PEER_EXT, &NEW6, true, false);
+            rig.inject(f);
+        }
+        (_, true, 1) => {
+            let f = rig.ns_frame(&PEER6, &PEER_MAC, PEER_EXT, &IFACE6_ULA, true, false);
+            rig.inject(f);
+        }
+        _ => {}
+    }
+}
+
+fn renumber_setup(m: Medium, v6: bool, v: usize) -> Option<Tweak> {
+    let (situation, action) = (v / 3, v % 3);
+    if !v6 && action == 2 {
+        return None; // there is only one IPv4 address
+    }
+    if m == Medium::Ip && (situation == 2 || situation == 3) {
+        return None; // no neighbor resolution on raw IP
+    }
+    std_setup(m, v6, v)
+}
+
+/// variant = situation * 3 + action. Situations: 0 TCP active open with the SYN unanswered,
+/// 1 established TCP connection with data in flight, 2 UDP datagram waiting for neighbor
+/// resolution, 3 ICMP echo request waiting for neighbor resolution, 4 fragmented datagram with
+/// fragments still to be sent, 5 DNS query in progress. (The DHCP case - the application
+/// replaces the address after a renewal changed the lease - is scenario
+/// dhcp-renewal-changes-lease.) After the renumbering the timers fire; every frame is judged
+/// against the address list of the moment it is handed to the device.
+fn sc_renumber(rig: &mut Rig, v6: bool, variant: usize) {
+    let (situation, action) = (variant / 3, variant % 3);
+    let p = peer(v6);
+    let old = me(v6);
+    let old = if v6 { rig.cfg.ll().to_vec() } else { old };
+    if situation != 2 && situation != 3 {
+        rig.teach_neighbors();
+    }
+    match situation {
+        0 => {
+            let h = rig.sockets.add(tcp_socket(2048, 0));
+            {
+                let cx = rig.iface.context();
+                let r = rig.sockets.get_mut::<tcp::Socket>(h).connect(cx, IpEndpoint::new(ipa(&p), 80), 49152);
+                rig.note(|| format!("connect -> {:?}", r));
+            }
+            let mark = rig.log.len();
+            rig.settle();
+            let iss = find_iss(rig, mark, 49152);
+            renumber(rig, v6, action);
+            for _ in 0..5 {
+                if !rig.advance_to_deadline(120_000_000) {
+                    rig.advance(1_000_000);
+                }
+            }
+            // the late SYN-ACK, addressed to the address the SYN came from
+            if let Some(iss) = iss {
+                let mut tp = TcpPeer { me: old.clone(), peer: p.clone(), pport: 80, lport: 49152, seq: 0x3000_0000, ack: iss.wrapping_add(1), ts: false, tsval: 0 };
+                let f = tp.seg(SYN | ACK, 4096, &[2, 4, 5, 0xb4], &[]);
+                inject_from_peer(rig, &f, 0xc00);
+            }
+            rig.advance(1_100_000);
+        }
+        1 => {
+            let mut s = tcp_socket(4096, 0);
+            s.listen(80).unwrap();
+            let h = rig.sockets.add(s);
+            let mut tp = TcpPeer { me: old.clone(), peer: p.clone(), pport: 4000, lport: 80, seq: 0x1000_0000, ack: 0, ts: false, tsval: 0 };
+            let mark = rig.log.len();
+            let syn = tp.seg(SYN, 4096, &[2, 4, 5, 0xb4], &[]);
+            inject_from_peer(rig, &syn, 0xc10);
+            let Some(iss) = find_iss(rig, mark, 80) else { return };
+            tp.seq = tp.seq.wrapping_add(1);
+            tp.ack = iss.wrapping_add(1);
+            let f = tp.seg(ACK, 4096, &[], &[]);
+            inject_from_peer(rig, &f, 0xc11);
+            let _ = rig.sockets.get_mut::<tcp::Socket>(h).send_slice(&pat(300, 21));
+            rig.settle();
+            renumber(rig, v6, action);
+            // retransmission timers
+            for _ in 0..4 {
+                if !rig.advance_to_deadline(120_000_000) {
+                    rig.advance(1_000_000);
+                }
+            }
+            // the peer, unaware, acknowledges and sends data to the old address
+            tp.ack = iss.wrapping_add(1).wrapping_add(300);
+            let f = tp.seg(ACK | PSH, 4096, &[], &pat(20, 22));
+            inject_from_peer(rig, &f, 0xc12);
+            let _ = rig.sockets.get_mut::<tcp::Socket>(h).send_slice(&pat(50, 23));
+            rig.settle();
+            rig.advance(1_100_000);
+        }
+        2 | 3 => {
+            if situation == 2 {
+                let h = udp_socket(rig, 7000, None);
+                let _ = rig.sockets.get_mut::<udp::Socket>(h).send_slice(&pat(30, 24), IpEndpoint::new(ipa(&p), 9000));
+            } else {
+                let mut s = icmp::Socket::new(
+                    icmp::PacketBuffer::new(vec![icmp::PacketMetadata::EMPTY; 4], vec![0u8; 1024]),
+                    icmp::PacketBuffer::new(vec![icmp::PacketMetadata::EMPTY; 4], vec![0u8; 1024]),
+                );
+                s.bind(icmp::Endpoint::Ident(0x1234)).unwrap();
+                let h = rig.sockets.add(s);
+                let body = echo_body(0x1234, 1, &pat(16, 25));
+                let msg = if v6 { icmp6(&old, &p, 128, 0, &body) } else { icmp4(8, 0, body[..4].try_into().unwrap(), &body[4..]) };
+                let _ = rig.sockets.get_mut::<icmp::Socket>(h).send_slice(&msg, ipa(&p));
+            }
+            // neighbor solicitation / ARP request goes out, the datagram waits
+            rig.settle();
+            // the renumbering itself must not teach the neighbor: do it by hand afterwards
+            let used6 = rig.cfg.ll();
+            rig.iface.update_ip_addrs(|a| match (v6, action) {
+                (false, 0) => {
+                    for c in a.iter_mut() {
+                        if matches!(c, IpCidr::Ipv4(_)) {
+                            *c = IpCidr::new(ip4(&NEW4), 24);
+                        }
+                    }
+                }
+                (false, _) => a.retain(|c| !matches!(c, IpCidr::Ipv4(_))),
+                (true, 0) => {
+                    for c in a.iter_mut() {
+                        if c.address() == ip6(&used6) {
+                            *c = IpCidr::new(ip6(&NEW6), 64);
+                        }
+                    }
+                }
+                (true, 1) => a.retain(|c| c.address() != ip6(&used6)),
+                (true, _) => a.retain(|c| !matches!(c, IpCidr::Ipv6(_))),
+            });
+            let now: Vec<String> = rig.iface.ip_addrs().iter().map(|c| c.to_string()).collect();
+            rig.note(|| format!("APPLICATION renumbers the interface (action {}): addresses now {:?}", action, now));
+            for _ in 0..3 {
+                rig.advance(1_100_000);
+            }
+            // now the neighbor answers (to whoever asked last)
+            renumber(rig, v6, 3.min(action));
+            if v6 {
+                let f = rig.na_frame(&PEER6, &PEER_MAC, PEER_EXT, if action == 0 { &NEW6 } else { &IFACE6_ULA });
+                rig.inject(f);
+            } else if action == 0 {
+                rig.inject(eth(&IFACE_MAC, &PEER_MAC, 0x0806, &arp(2, &PEER_MAC, &PEER4, &IFACE_MAC, &NEW4)));
+            }
+            rig.advance(1_100_000);
+            rig.advance(3_000_000);
+        }
+        4 => {
+            let h = udp_socket(rig, 7000, None);
+            // the device takes one frame, then stalls
+            rig.dev.tx_budget = Some(1);
+            let n = match rig.medium() {
+                Medium::Ieee802154 => 400,
+                _ => {
+                    if v6 {
+                        // no IPv6 fragmentation outside 6LoWPAN: two datagrams, the second one waits
+                        200
+                    } else {
+                        (3 * (rig.cfg.ip_mtu - 28)).min(1400)
+                    }
+                }
+            };
+            let _ = rig.sockets.get_mut::<udp::Socket>(h).send_slice(&pat(n, 26), IpEndpoint::new(ipa(&p), 9000));
+            let _ = rig.sockets.get_mut::<udp::Socket>(h).send_slice(&pat(40, 27), IpEndpoint::new(ipa(&p), 9001));
+            rig.settle();
+            renumber(rig, v6, action);
+            rig.dev.tx_budget = None;
+            rig.settle();
+            rig.advance(1_100_000);
+        }
+        _ => {
+            let h = rig.sockets.add(dns::Socket::new(&[ipa(&p)], vec![]));
+            {
+                let cx = rig.iface.context();
+                let _ = rig.sockets.get_mut::<dns::Socket>(h).start_query(cx, "renumber.example", if v6 { DnsQueryType::Aaaa } else { DnsQueryType::A });
+            }
+            rig.settle();
+            renumber(rig, v6, action);
+            for _ in 0..4 {
+                if !rig.advance_to_deadline(60_000_000) {
+                    break;
+                }
+            }
+        }
+    }
+}
+
+// ------------------------------------------------------------------------------------------
+// application model: echo with the received metadata (examples/server.rs)
+// ------------------------------------------------------------------------------------------
+
+/// `let (data, meta) = socket.recv()?; socket.send_slice(data, meta)` on a UDP socket bound by
+/// port only, fed with datagrams for unicast, broadcast and multicast destinations. Source
+/// findings on the echoes get the signature C10/source/udp-echo-of-received-metadata/<kind>.
+fn sc_udp_echo_meta(rig: &mut Rig, v6: bool, _variant: usize) {
+    rig.teach_neighbors();
+    let _ = rig.iface.join_multicast_group(ipa(&if v6 { GROUP6.to_vec() } else { GROUP4.to_vec() }));
+    rig.settle();
+    let h = udp_socket(rig, 7, None);
+    let dsts: Vec<(&str, Vec<u8>)> = if v6 {
+        vec![("own-unicast", rig.cfg.ll().to_vec()), ("all-nodes-ff02-1", ALL_NODES6.to_vec()), ("joined-ipv6-group", GROUP6.to_vec())]
+    } else {
+        vec![
+            ("own-unicast", IFACE4.to_vec()),
+            ("subnet-directed-broadcast", vec![192, 168, 69, 255]),
+            ("limited-broadcast", vec![255; 4]),
+            ("joined-ipv4-group", GROUP4.to_vec()),
+            ("all-systems-224.0.0.1", vec![224, 0, 0, 1]),
+        ]
+    };
+    let src = peer(v6);
+    for (i, (kind, dst)) in dsts.iter().enumerate() {
+        rig.source_tag = Some(format!("udp-echo-of-received-metadata/{}", kind));
+        let p = ip(&src, dst, 17, &udp(&src, dst, 4000, 7, &pat(9 + i, 28)));
+        inject_from_peer(rig, &p, 0xd00 + i as u16);
+        // the echo server
+        loop {
+            let got = {
+                let s = rig.sockets.get_mut::<udp::Socket>(h);
+                match s.recv() {
+                    Ok((data, meta)) => Some((data.to_vec(), meta)),
+                    Err(_) => None,
+                }
+            };
+            let Some((data, meta)) = got else { break };
+            let r = rig.sockets.get_mut::<udp::Socket>(h).send_slice(&data, meta);
+            rig.note(|| format!("echo server: received {} octets sent to {} ({:?}), send_slice(data, meta) -> {:?}", data.len(), kind, meta, r));
+        }
+        rig.settle();
+        rig.source_tag = None;
+    }
+}
+
 // ------------------------------------------------------------------------------------------
 // raw sockets
 // ------------------------------------------------------------------------------------------
@@ -1306,6 +1578,8 @@ pub fn scenarios() -> Vec<Scenario> {
         Scenario { name: "mld", variants: 2, setup: v6_only, run: sc_mld },
         Scenario { name: "igmp", variants: 2, setup: igmp_setup, run: sc_igmp },
         Scenario { name: "dhcp-client", variants: 3, setup: dhcp_setup, run: sc_dhcp },
+        Scenario { name: "renumbering", variants: 18, setup: renumber_setup, run: sc_renumber },
+        Scenario { name: "udp-echo-of-received-metadata", variants: 1, setup: std_setup, run: sc_udp_echo_meta },
         Scenario { name: "dhcp-renewal-changes-lease", variants: 5, setup: dhcp_setup, run: sc_dhcp_renew_changes },
         Scenario { name: "dns-queries", variants: 3, setup: std_setup, run: sc_dns },
         Scenario { name: "raw-socket", variants: 2, setup: std_setup, run: sc_raw },
